@@ -36,6 +36,13 @@ pub struct EnetCase {
     /// with_intercept true, tolerance 1e-4) unset instead of setting it explicitly
     #[serde(default)]
     pub leave_defaults: bool,
+    /// memory layout in which the records / the targets are handed to linfa (see `fit::Laid2`):
+    /// 0 row-major, 1 column-major, 2 every second row of a larger table, 3 rows reversed (axis inverted),
+    /// 4 columns reversed, 5 transposed view of a feature-major table
+    #[serde(default)]
+    pub x_layout: u8,
+    #[serde(default)]
+    pub y_layout: u8,
     /// `max_iterations` of the fit (tier-dependent fixed work: 10 000 quick, 100 000 thorough)
     #[serde(default = "default_max_iter")]
     pub max_iter: u32,
@@ -58,6 +65,11 @@ pub struct OlsCase {
     /// when the intercept option equals its documented default (on), do not call `with_intercept`
     #[serde(default)]
     pub leave_defaults: bool,
+    /// memory layouts of records / targets, as in `EnetCase`
+    #[serde(default)]
+    pub x_layout: u8,
+    #[serde(default)]
+    pub y_layout: u8,
     pub f32: bool,
     pub pert_seed: u64,
 }
@@ -306,6 +318,11 @@ fn build(r: &Raw, flavor: Flavor, ridge_part: bool, specials: bool) -> (Mat, Mat
     (x, y)
 }
 
+/// memory layout: standard with weight 4, each of the five others with weight 1
+fn layout_s() -> impl Strategy<Value = u8> {
+    prop_oneof![4 => Just(0u8), 1 => Just(1u8), 1 => Just(2u8), 1 => Just(3u8), 1 => Just(4u8), 1 => Just(5u8)]
+}
+
 fn penalty_s() -> impl Strategy<Value = f64> {
     prop_oneof![1 => Just(0.0), 3 => Just(1e-3), 3 => Just(0.1), 3 => Just(1.0), 2 => Just(10.0)]
 }
@@ -319,8 +336,8 @@ pub fn enet_strategy(flavor: Flavor, max_iter: u32) -> impl Strategy<Value = Ene
     } else {
         prop_oneof![Just(1e-4), Just(1e-8), Just(1e-12)].boxed()
     };
-    (raw(flavor), penalty_s(), l1_s(), any::<bool>(), tol, any::<u64>(), any::<bool>(), 0u8..4, any::<bool>()).prop_map(
-        move |(r, penalty, l1_ratio, intercept, tol, pert_seed, multi32, ctor, leave_defaults)| {
+    (raw(flavor), penalty_s(), l1_s(), any::<bool>(), tol, any::<u64>(), any::<bool>(), 0u8..4, any::<bool>(), (layout_s(), layout_s())).prop_map(
+        move |(r, penalty, l1_ratio, intercept, tol, pert_seed, multi32, ctor, leave_defaults, (x_layout, y_layout))| {
             let ridge_part = penalty * (1.0 - l1_ratio) > 0.0;
             let (x, y) = build(&r, flavor, ridge_part, true);
             EnetCase {
@@ -334,6 +351,8 @@ pub fn enet_strategy(flavor: Flavor, max_iter: u32) -> impl Strategy<Value = Ene
                 tol,
                 ctor,
                 leave_defaults,
+                x_layout,
+                y_layout,
                 max_iter,
                 pert_seed,
             }
@@ -342,12 +361,12 @@ pub fn enet_strategy(flavor: Flavor, max_iter: u32) -> impl Strategy<Value = Ene
 }
 
 pub fn ols_strategy() -> impl Strategy<Value = OlsCase> {
-    (prop::bool::weighted(0.25), any::<bool>(), any::<u64>(), 0u8..2, any::<bool>())
-        .prop_flat_map(|(f32, intercept, pert_seed, ctor, leave_defaults)| {
+    (prop::bool::weighted(0.25), any::<bool>(), any::<u64>(), 0u8..2, any::<bool>(), layout_s(), layout_s())
+        .prop_flat_map(|(f32, intercept, pert_seed, ctor, leave_defaults, x_layout, y_layout)| {
             let flavor = if f32 { Flavor::F32 } else { Flavor::Ols };
             raw(flavor).prop_map(move |r| {
                 let (x, y) = build(&r, flavor, false, false);
-                OlsCase { x, y: y.iter().map(|row| row[0]).collect(), intercept, ctor, leave_defaults, f32, pert_seed }
+                OlsCase { x, y: y.iter().map(|row| row[0]).collect(), intercept, ctor, leave_defaults, x_layout, y_layout, f32, pert_seed }
             })
         })
 }
